@@ -231,6 +231,8 @@ class FamilyTarget(Target):
         self.family = shared
         self.g = shared[0] if which == 'base' else shared[1]
         self.calls = [(None, t, 0, True) for t in texts] + [(None, t, 1, False) for t in texts[:6] if len(t) > 1]
+        # rule-level entry points of inherited / overridden rules
+        self.calls += [('start', t, 0, True) for t in texts[:12]] + [('Item', t, 0, False) for t in ('a', 'c', ' c', 'b a', '')]
         self.baseline = {}
 
     @staticmethod
@@ -245,8 +247,13 @@ class FamilyTarget(Target):
         return r1[1], r2[1]
 
     def fresh(self):
-        fam = self.compile_family()
-        return fam[0] if self.which == 'base' else fam[1]
+        if self.which == 'base':
+            # the base alone: no extension of this module is ever created
+            a = diff.unique_name('vt_c18a')
+            r1 = observe.compile_grammar(FAMILY_BASE.format(A=a))
+            sys.modules.pop(a, None)
+            return r1[1]
+        return self.compile_family()[1]
 
 
 def family_texts(rng, n):
